@@ -257,13 +257,18 @@ def step (st : State) (line : String) : State × String :=
     | some ps => if ps.isEmpty then (st, "bad-op") else (st, chunksRun ps true)
     | none => (st, "bad-op")
   -- `LinesCodec` under `Framed`: the non-empty pieces are the reads, then end of file
-  | "framed" :: hs => match parseAll hs with
-    | some ps =>
-      if ps.isEmpty || ps.any (fun p => p.length > maxChunk) then (st, "bad-op")
+  | "framed" :: hs =>
+    -- tokens: a piece of data (hex) or `p` = Pending
+    match hs.mapM (fun h => if h == "p" then some none else (parseHex h).map some) with
+    | some toks =>
+      let ps := toks.filterMap id
+      if toks.isEmpty || ps.any (fun p => p.length > maxChunk) then (st, "bad-op")
       else
-        let reads := ps.filter (fun p => !p.isEmpty)
-        let polls := reads.length + (ps.flatten.filter (· == 10)).length + 4
-        let (os, _) := Framed.pollN Framed.linesCodec polls (Framed.rinit (reads.map .data))
+        let script : List Framed.Rd := toks.filterMap (fun t => match t with
+          | none => some .pending
+          | some p => if p.isEmpty then none else some (.data p))
+        let polls := script.length + (ps.flatten.filter (· == 10)).length + 4
+        let (os, _) := Framed.pollN Framed.linesCodec polls (Framed.rinit script)
         (st, s!"[{",".intercalate (os.map outStr)}]")
     | none => (st, "bad-op")
   | "enc" :: hs => match parseAll hs with
